@@ -338,11 +338,39 @@ def r4_grouping(ctx) -> None:
     else:
         r.violation("C01.R4", nt.qual, "convert_condition_not", "expected one grouped and one direct conversion of the argument", nt.loc)
     gp = prog.func(TQ + ".convert_condition_group")
-    src = unparse(gp.node)
-    if "expr = self.convert_condition(cond, state)" in src and "return self.group_expression.format(expr=expr)" in src and "if self.group_expression is None:\n        raise" in src:
-        r.ok("C01.R4", gp.qual, "group = group_expression.format(expr=convert_condition(cond)); missing template raises", gp.loc)
+    # the group function, interpreted (sa.tabulate) on converted texts: every text gets the group, also one that already
+    # starts and ends with the group delimiters — "(a or b) and (c or d)" is not a group
+    from ..tabulate import Interp, Raised
+
+    class _Def:
+        pass
+
+    deferred = _Def()
+    cases = [("a or b", "(a or b)"), ("(a or b) and (c or d)", "((a or b) and (c or d))"), ("(a)", "((a))"), ("a", "(a)"), (None, None), (deferred, deferred)]
+    wrong = []
+    for expr, want in cases:
+        me = type("B", (), {})()
+        me.group_expression = "({expr})"
+        me.convert_condition = lambda cond, state, _e=expr: _e
+        it = Interp({"self": me, "cond": object(), "state": object(), "DeferredQueryExpression": _Def, "NotImplementedError": NotImplementedError}, max_steps=500)
+        try:
+            got = it.call(gp.node.body)
+        except Raised as ex:
+            got = f"<raises {ex}>"
+        if got is not want and got != want:
+            wrong.append(f"{expr!r} → {got!r} (a group is {want!r})")
+    me = type("B", (), {})()
+    me.group_expression = None
+    me.convert_condition = lambda cond, state: "a or b"
+    try:
+        got = Interp({"self": me, "cond": object(), "state": object(), "DeferredQueryExpression": _Def, "NotImplementedError": NotImplementedError}, max_steps=500).call(gp.node.body)
+        wrong.append(f"without group_expression 'a or b' → {got!r} instead of an error")
+    except Raised:
+        pass
+    if wrong:
+        r.violation("C01.R4", gp.qual, f"convert_condition_group: {wrong[0]}", f"{len(wrong)} of {len(cases) + 1} interpreted cases deviate: the caller asked for a group because the operator around it binds tighter (or is a NOT); returning the text ungrouped — also when it merely starts and ends with the group delimiters — changes the boolean structure: not ((a or b) and (c or d)) becomes not (a or b) and (c or d)", gp.loc)
     else:
-        r.violation("C01.R4", gp.qual, "return self.group_expression.format(expr=expr)", "the group function no longer wraps the converted child in group_expression (or silently returns it ungrouped)", gp.loc)
+        r.ok("C01.R4", gp.qual, f"group function interpreted on {len(cases) + 1} cases: every converted text is wrapped, None/deferred pass through, a missing template raises", gp.loc)
     r.floor("C01.R4", 6)
 
 
